@@ -11,19 +11,20 @@ Norm(r) == LET s == IF r[2] < 0 THEN -1 ELSE 1
                g == Gcd(Abs(r[1]), Abs(r[2]))
            IN  IF r[1] = 0 THEN <<0, 1>> ELSE <<(s * r[1]) \div g, (s * r[2]) \div g>>
 RI(n) == <<n, 1>>
+RNeg(a) == <<-a[1], a[2]>>
 R(n, d) == Norm(<<n, d>>)
 RAdd(a, b) == LET g == Gcd(a[2], b[2]) IN Norm(<<a[1] * (b[2] \div g) + b[1] * (a[2] \div g), (a[2] \div g) * b[2]>>)
-RNeg(a) == <<-a[1], a[2]>>
 RSub(a, b) == RAdd(a, RNeg(b))
+
 RMul(a, b) == LET g1 == Gcd(Abs(a[1]), b[2])  g2 == Gcd(Abs(b[1]), a[2])
                   p == IF g1 = 0 THEN 1 ELSE g1  q == IF g2 = 0 THEN 1 ELSE g2
               IN Norm(<<(a[1] \div p) * (b[1] \div q), (a[2] \div q) * (b[2] \div p)>>)
 RInv(a) == Norm(<<a[2], a[1]>>)
 RDiv(a, b) == RMul(a, RInv(b))
-(* comparisons: integer parts first, then the fractional remainders -- keeps the cross products small *)
+(* comparisons: integer parts first, then the sign of the difference (taken over the least common
+   denominator, which keeps the intermediate products as small as exact arithmetic allows) *)
 Fl(a) == a[1] \div a[2]
-Rem(a) == a[1] - Fl(a) * a[2]
-RLt(a, b) == IF Fl(a) # Fl(b) THEN Fl(a) < Fl(b) ELSE Rem(a) * b[2] < Rem(b) * a[2]
+RLt(a, b) == IF Fl(a) # Fl(b) THEN Fl(a) < Fl(b) ELSE RSub(a, b)[1] < 0
 REq(a, b) == Norm(a) = Norm(b)
 RLe(a, b) == RLt(a, b) \/ REq(a, b)
 RAbs(a) == <<Abs(a[1]), a[2]>>
